@@ -25,6 +25,8 @@ PROP = dict(
              cfg={"quick": "MC_Identity.cfg", "thorough": "MC_Identity_big.cfg"}, budget={"quick": 40, "thorough": 300}, maxwalk=4),
         dict(kind="walk", name="IdentityAlt", module="Identity", pkg="types", test="TestVerifC21Identity", harness=["types/c21_identity_test.go"],
              cfg={"quick": "MC_Identity_alt.cfg", "thorough": "MC_Identity_alt.cfg"}, budget={"quick": 40, "thorough": 120}, maxwalk=4, tiers=("thorough",)),
+        dict(kind="walk", name="IdentityKeys", module="Identity", pkg="types", test="TestVerifC21Identity", harness=["types/c21_identity_test.go"],
+             cfg={"quick": "MC_Identity_keys.cfg", "thorough": "MC_Identity_keys.cfg"}, budget={"quick": 40, "thorough": 120}, maxwalk=4, tiers=("thorough",)),
         dict(kind="tlc", name="IdentityIdeal", module="Identity", cfg={"quick": None, "thorough": "MC_Identity_ideal.cfg"}, workers=8),
     ],
 )
